@@ -51,7 +51,7 @@ LEVEL_TEXT = (
 
 def budget(tier):
     if tier == "quick":
-        return dict(max_examples=400, shards=8, wall_s=90, shrink_s=30)
+        return dict(max_examples=400, shards=8, wall_s=90, shrink_s=15)
     return dict(max_examples=8000, shards=16, wall_s=600, shrink_s=120)
 
 
@@ -80,7 +80,8 @@ def _draw_type(draw, st, depth):
         kinds = kinds + ["opt", "opt", "list", "tuple", "nested"]
     k = draw(st.sampled_from(kinds))
     if k == "opt":
-        return ["opt", _draw_type(draw, st, depth - 1)]
+        inner = _draw_type(draw, st, depth - 1)
+        return inner if not isinstance(inner, str) and inner[0] == "opt" else ["opt", inner]  # Optional[Optional[T]] is Optional[T]
     if k == "list":
         return ["list", _draw_type(draw, st, depth - 1)]
     if k == "tuple":
@@ -179,53 +180,66 @@ def _leaf(spec):
     return sc.NP_MAKERS[spec["np"]](v) if spec.get("np") else v
 
 
-def _build(t, v, counter, info):
-    """(annotation, value) for a type / value spec."""
+def _ann(t, counter):
+    """Annotation for a type spec (nested DictLike classes are created here, once)."""
     import numpy.typing as npt
 
     from eko import interpolation
     from eko.io.dictlike import DictLike
 
     if isinstance(t, str):
+        return {"int": int, "float": float, "str": str, "bool": bool, "enum_s": Colour, "enum_i": Level,
+                "ndarray": npt.NDArray, "xgrid": interpolation.XGrid, "dict": dict, "plain": PlainDC}[t]
+    if t[0] == "opt":
+        return typing.Optional[_ann(t[1], counter)]
+    if t[0] == "list":
+        return typing.List[_ann(t[1], counter)]
+    if t[0] == "tuple":
+        return typing.Tuple[tuple(_ann(x, counter) for x in t[1])]
+    anns = [_ann(x, counter) for x in t[1]]
+    counter[0] += 1
+    return dataclasses.make_dataclass(f"Gen{counter[0]}", [(f"g{i}", a) for i, a in enumerate(anns)], bases=(DictLike,))
+
+
+def _val(t, ann, v, info):
+    """Typed value for a value spec, using the classes of the annotation."""
+    from eko import interpolation
+
+    if isinstance(t, str):
         if t in SCALARS:
-            if isinstance(v, dict) and v.get("np"):
+            if v.get("np"):
                 info["np"].add(v["np"])
-            return {"int": int, "float": float, "str": str, "bool": bool}[t], (None if v is None else _leaf(v))
+            return _leaf(v)
         if t == "enum_s":
-            return Colour, (None if v is None else Colour[v["v"]])
+            return Colour[v["v"]]
         if t == "enum_i":
-            return Level, (None if v is None else Level[v["v"]])
+            return Level[v["v"]]
         if t == "ndarray":
             info["array"] = True
-            return npt.NDArray, (None if v is None else np.array(v["flat"], dtype=v["dtype"]).reshape(v["shape"]))
+            return np.array(v["flat"], dtype=v["dtype"]).reshape(v["shape"])
         if t == "xgrid":
-            if v is not None and not v["log"]:
+            if not v["log"]:
                 info["linear"] = True
-            return interpolation.XGrid, (None if v is None else interpolation.XGrid(v["nodes"], log=v["log"]))
+            return interpolation.XGrid(v["nodes"], log=v["log"])
         if t == "dict":
-            return dict, (None if v is None else dict(v["v"]))
+            return dict(v["v"])
         if t == "plain":
-            return PlainDC, (None if v is None else PlainDC(v["i"], v["f"]))
+            return PlainDC(v["i"], v["f"])
         raise ValueError(t)
     if t[0] == "opt":
-        ann, val = _build(t[1], v, counter, info)
         if v is None:
             info["none"].add(t[1] if isinstance(t[1], str) else t[1][0])
-        return typing.Optional[ann], val
+            return None
+        if not isinstance(t[1], str) and t[1][0] == "opt":  # replayed old cases: typing collapses nested Optionals
+            return _val(t[1], ann, v, info)
+        inner = [a for a in typing.get_args(ann) if a is not type(None)][0]
+        return _val(t[1], inner, v, info)
     if t[0] == "list":
-        ann, _ = _build(t[1], None, counter, info)
-        return typing.List[ann], (None if v is None else [_build(t[1], x, counter, info)[1] for x in v])
+        return [_val(t[1], typing.get_args(ann)[0], x, info) for x in v]
     if t[0] == "tuple":
-        anns = tuple(_build(x, None, counter, info)[0] for x in t[1])
-        return typing.Tuple[anns], (None if v is None else tuple(_build(x, y, counter, info)[1] for x, y in zip(t[1], v)))
-    # nested DictLike
-    anns = [_build(x, None, counter, info)[0] for x in t[1]]
-    counter[0] += 1
-    cls = dataclasses.make_dataclass(f"Gen{counter[0]}", [(f"g{i}", a) for i, a in enumerate(anns)], bases=(DictLike,))
-    if v is None:
-        return cls, None
-    vals = [_build(x, y, counter, info)[1] for x, y in zip(t[1], v)]
-    return cls, cls(*vals)
+        return tuple(_val(x, None, y, info) for x, y in zip(t[1], v))
+    subs = [f.type for f in dataclasses.fields(ann)]
+    return ann(*[_val(x, a, y, info) for x, a, y in zip(t[1], subs, v)])
 
 
 # ----------------------------------------------------------------------------- oracle
@@ -386,9 +400,9 @@ def _check_dictlike(case):
     info = dict(np=set(), array=False, linear=False, none=set())
     anns, vals = [], []
     for t, v in case["fields"]:
-        a, val = _build(t, v, counter, info)
+        a = _ann(t, counter)
         anns.append(a)
-        vals.append(val)
+        vals.append(_val(t, a, v, info))
     cls = dataclasses.make_dataclass("GenTop", [(f"f{i}", a) for i, a in enumerate(anns)], bases=(DictLike,))
     obj = cls(*vals)
     tops = [t if isinstance(t, str) else t[0] for t, _ in case["fields"]]
